@@ -15,3 +15,11 @@ prop('C11','exploration','reference-model monitor of the chain policy over seque
  'Compares every result class and every member call of router / cache / repairable cache / failover / the full CLI chain with a reference model of the documented policy on random operation sequences over members with contents {valid, missing, invalid} and fault plans; concurrent legs assert sound invariants (failover with a healthy member never fails and makes <= len(members) calls, cache is not bypassed after a completed fill, swap never fails a request, never closes a store with requests in flight or calls it after close, swap/serve history linearizable).',
  'Reference model written from the documented policy; concurrent schedules sampled; members are in-memory stores.',
  'DESIGN.md 5/C11')
+prop('C09','exploration','reference-cursor monitor over Seek/Read histories + cursor invariant via inspector hook + FUSE requests through the in-process go-fuse bridge + Go race detector',
+ 'Checks every Seek/Read of IndexPos and every FUSE read of the index mount node (several handles, concurrent) against a reference cursor over the blob, including failed seeks, store errors at request k, reads across chunk boundaries, null chunks, EOF and the empty blob; asserts the internal cursor invariant after every operation; `desync cat -o -l` is compared with blob slices.',
+ 'Kernel FUSE is not in the loop (no fusermount): requests are issued through go-fuse\'s RawFileSystem bridge. Store is in memory; index from the reference chunker.',
+ 'DESIGN.md 5/C09')
+prop('C10','exploration','blob-bytes-or-error oracle over multi-session sparse-file histories with injected store faults, restarts and preload + done-bit invariant via inspector hook + Go race detector',
+ 'Drives SparseFile handles and the sparse mount node (bridge) with concurrent ReadAt sequences under transient store faults, saves state, restarts with every cache/state combination, preloads, and requires every nil/EOF read to return exactly the blob bytes (errors only with injected faults), no refetch of chunks done in a reused state, and done-bit => cache holds the chunk.',
+ 'In-memory store; FUSE node driven in process; resized cache means truncated/extended by the filesystem.',
+ 'DESIGN.md 5/C10')
